@@ -29,6 +29,7 @@ import os
 import pwd
 import socket
 import datetime
+import copy
 
 from fcp.utils import to_pascal_case, to_snake_case
 from fcp.specs.impl import Impl
@@ -166,7 +167,7 @@ class Generator(CodeGenerator):
     def generate(self, fcp: FcpV2, ctx: Any) -> List[Dict[str, Union[str, Path]]]:
         """Generate cpp files."""
         fcp_reflection = get_reflection_schema().unwrap()
-        fcp = generate_rpc(fcp)
+        fcp = generate_rpc(copy.deepcopy(fcp))
 
         output_builder = OutputBuilder(
             {
